@@ -310,6 +310,9 @@ func init() {
 			c01("H_lex", n(0), "quick", "lexed"), c01("H_lex", n(1), "quick", "lexed"),
 			c01("H_lex_template", n(0), "quick", "lexed"), c01("H_lex_template", n(1), "quick", "lexed"),
 			c01("H_parse", n(0), "quick", "parsed"), c01("H_parse", n(1), "quick", "parsed", "accepted", "rejected"),
+			c01("H_php_mid", n(1), "quick", "parsed"), c01("H_php_mid", n(2), "thorough", "parsed"),
+			c01("H_html_lex", n(1), "quick", "lexed"), c01("H_html_lex", n(2), "quick", "lexed"), c01("H_html_lex", n(3), "thorough", "lexed"),
+			c01("H_html_parse", n(1), "quick", "parsed"), c01("H_html_parse", n(2), "quick", "parsed"), c01("H_html_parse", n(3), "thorough", "parsed"),
 			c01("H_parse_php", n(0), "quick", "parsed"), c01("H_parse_php", n(1), "quick", "parsed"), c01("H_parse_php", n(2), "thorough", "parsed"),
 			c01("H_lex", n(2), "quick", "lexed"),
 			c01("H_parse", map[string]int{"n": 2, "ctx": 0}, "quick", "parsed"),
@@ -331,9 +334,9 @@ func init() {
 			c01("H_lex", map[string]int{"n": 3, "ctx": 0}, "thorough", "lexed"),
 		},
 		Rule: rule + "; the source is opener ‖ window (31 lexer-state openers, window = n arbitrary bytes at the end) or a one-construct snippet with the window inserted at / replacing every token (n=0: single-token deletion); " +
-			"exhausting the instruction budget (3·10^6 SSA instructions, inputs < 120 bytes) during lexing/parsing is reported as non-termination and replayed natively under a watchdog; H_parse_cost: 12 families nesting one construct d and d+4 levels deep, the exact SSA instruction count of the deeper parse may be at most 4x that of the shallower one (an exponential parser gives 16x)",
+			"exhausting the instruction budget (3·10^6 SSA instructions, inputs < 120 bytes) during lexing/parsing is reported as non-termination and replayed natively under a watchdog; H_php_mid: a window in the middle of a .php file whose tail holds if:/endif;, else:, foreach:, @end constructs (the alternative-syntax rewriting pass searches across the window); H_html_lex / H_html_parse: sources starting with <!DOCTYPE go to the HTML tokenizer and template parser, an accepted template is rendered; H_parse_cost: 12 families nesting one construct d and d+4 levels deep, the exact SSA instruction count of the deeper parse may be at most 4x that of the shallower one (an exponential parser gives 16x)",
 		Assumptions: []string{"class autoload sees an empty file system", "running an accepted program gets a soft budget of 3·10^5 instructions (programs may legitimately loop); only a Go panic is a violation there"},
-		Outside:     []string{"windows longer than 3 bytes (2 inside snippets)", "holes in multi-construct files; the 330-file corpus as contexts", "HTML lexer (<!DOCTYPE path)", ".php mode beyond 8 openers (ParseFile with shebang stripping, alternative-syntax conversion and TokenizeTemplate is driven through a virtual file)", "stack-overflow depth (call depth capped at 3000 frames, never reached)"},
+		Outside:     []string{"windows longer than 3 bytes (2 inside snippets)", "holes in multi-construct files; the 330-file corpus as contexts", "the HTML tokenizer / template parser (<!DOCTYPE path) beyond 16 contexts with a window of 1-2 (3 thorough) bytes", ".php mode beyond 8 openers and 12 sandwiches whose tail holds alternative-syntax constructs (ParseFile with shebang stripping, alternative-syntax conversion and TokenizeTemplate is driven through a virtual file)", "stack-overflow depth (call depth capped at 3000 frames, never reached)"},
 	})
 	reg(Check{
 		ID:  "C18",
